@@ -573,8 +573,12 @@ class ScenarioGen:
                 n for b, n in enumerate("xyrs") if mask >> b & 1))
         env = None
         if self.cyc([True, True, False]):
-            env = Environment(Time(r.randint(0, 23), r.randint(0, 59)), self.cyc(tods), self.cyc(weathers),
-                              self.cyc(unders))
+            # (hours 0..24 are documented; 24:00 and 00:00 are the two ends of the day)
+            hm = self.cyc([(r.randint(0, 23), r.randint(0, 59)), (24, 0), (0, 0), (r.randint(1, 23), r.randint(0, 59)),
+                           (23, 59)])
+            if hm == (24, 0):
+                self.feat("environment.time-24:00")
+            env = Environment(Time(*hm), self.cyc(tods), self.cyc(weathers), self.cyc(unders))
         loc = Location(r.randint(1, 10 ** 7), round(r.uniform(-90, 90), r.choice([2, 6, 12])),
                        self.real(180) if self.hostile else 11.5, geo, env)
         dt = r.choice([0.1, 0.04, 0.5, 1, 0.02]) if not self.hostile else r.choice([0.1, 0.04, 1, 1e-5, 0.000123, 0.5])
